@@ -7,7 +7,7 @@ positions they describe (C02-OFFS); flag bits 0 and 11 (C02-FLAGS); version-need
 import re
 
 from engine.codec import Codec
-from engine.expr import Ex, norm, show, walk, alts
+from engine.expr import Ex, norm, show, walk, alts, canon
 from engine.intervals import Intervals, dominating_facts, ty_range, argtys_of
 from engine.mir import AnchorLost, callee_matches
 from engine.panics import const_return_summaries, leaf_sig
@@ -39,7 +39,17 @@ def core(e):
         elif e[0] == "call" and re.search(r"Result::<T, E>::(map_err|or_else)$|TryInto::try_into$|TryFrom::try_from$|convert::(From|Into)::", e[1]) and e[2]:
             e = e[2][0]
         else:
-            return e
+            return _bytelen(e)
+
+
+def _bytelen(e):
+    """the byte length of a string/vector has one meaning however it is reached: s.len(), s.as_bytes().len(), s.as_str().len(), (&*v).len()"""
+    if e[0] == "call" and re.search(r"::len$", e[1]) and len(e[2]) == 1:
+        a = e[2][0]
+        while a[0] == "call" and len(a[2]) == 1 and re.search(r"::(as_bytes|as_str|as_slice|deref|as_ref|borrow|as_mut_slice)$", a[1]):
+            a = a[2][0]
+        return ("call", "len", (a,)) + tuple(None for _ in e[3:])
+    return e
 
 
 def sib_rules(ctx, facts, rep):
@@ -292,6 +302,50 @@ def limit_rules(facts, rep):
     return ok
 
 
+def seekabs_rules(facts, rep, rule="C02-SEEKABS"):
+    """the writer positions its sink by absolute offsets it computed itself (SeekFrom::Start): a seek relative to the end or to the
+    current position lands elsewhere as soon as the sink holds bytes the writer did not put there -- after new_append() the old
+    central directory still lies behind the entry being written -- and the data is written where the headers do not say it is.
+    In end_extra_data the last seek goes back to the offset recorded as the entry's data start."""
+    ok = True
+    roots = [f.path for f in facts.fns if is_write_root(f)]
+    reach, _ = facts.reachable_from(roots)
+    n = 0
+    rel = []
+    for f in facts.fns:
+        if f.path not in reach or not f.path.startswith(("write::", "<write::")):
+            continue
+        ex = Ex(f)
+        for bi, t in f.calls():
+            if not callee_matches(t, r"io::Seek::seek$") or len(t["args"]) < 2:
+                continue
+            n += 1
+            a = norm(ex.operand(t["args"][1], (bi, None)))
+            if not all(x[0] == "agg" and x[1] == "adt:Start" for x in alts(a)):
+                rel.append((where(f, t["span"]), show(a)[:60]))
+    ok &= rep.check(not rel and n >= 5, rule, "absolute-seeks", rel[0][0] if rel else "", "all %d seeks of the writer are SeekFrom::Start(offset)" % n,
+                    "the writer seeks relative to the end/current position: %s" % rel[:2])
+    ee = facts.one(ZW + "end_extra_data$")
+    exe = Ex(ee)
+    sks = [(bi, t) for bi, t in ee.calls() if callee_matches(t, r"io::Seek::seek$")]
+    sw = calls_matching(ee, r"switch_to$")
+    good = bool(sks) and bool(sw)
+    if good:
+        last = [x for x in sks if ee.dominates(x[0], sw[0][0])]
+        good = bool(last)
+        if good:
+            tgt = norm(exe.operand(last[-1][1]["args"][1], (last[-1][0], None)))
+            # the value stored as the entry's data start / the accounting start
+            stores = [norm(exe.rvalue(s["rv"], (bi, si))) for bi, si, s in ee.stmts()
+                      if s["k"] == "assign" and ([q.get("n") for q in s["place"]["p"] if q["k"] == "field"][-1:] == ["start"] or
+                                                 (s["place"]["p"] and s["place"]["p"][-1]["k"] == "deref" and "data_start" in (ee.local_name(s["place"]["l"]) or "")))]
+            inner = tgt[3][0][1] if tgt[0] == "agg" and tgt[1] == "adt:Start" and tgt[3] else None
+            good = inner is not None and any(canon(inner) == canon(st_) for st_ in stores)
+    ok &= rep.check(good, rule, "end_extra_data:back-to-data-start", where(ee, ee.span), "after patching the extra length the sink is put back at the recorded data start",
+                    "end_extra_data does not return the sink to the offset it recorded as the entry's data start")
+    return ok
+
+
 def offs_rules(ctx, facts, rep):
     rule = "C02-OFFS"
     ok = True
@@ -408,6 +462,9 @@ def run(ctx, rep):
     narrow_rules(ctx, facts, rep)
     limit_rules(facts, rep)
     offs_rules(ctx, facts, rep)
+    seekabs_rules(facts, rep)
+    from rules.shared_count import count_rule
+    count_rule(facts, rep, rule="C02-COUNT", only=r"ZipWriter<W>>::write$")       # the stored CRC/size describe exactly the bytes the sink accepted
     vers_rules(ctx, facts, rep)
     thr_rules(ctx, facts, rep, rule="C02-Z64")
     pair_rules(ctx, facts, rep, rule="C02-Z64", side="write")
